@@ -287,6 +287,23 @@ def direct_abs_imported(a):
     return None
 
 
+def direct_add_elem(a):
+    """Bip32Path.AddElem returns the extended path and keeps the kind (absolute / relative); the receiver is unchanged."""
+    path, is_abs, e = a
+    p = Bip32Path(path, bool(is_abs))
+    before = (p.ToList(), p.IsAbsolute(), p.ToStr())
+    q = p.AddElem(e)
+    want = Bip32Path(list(path) + [e], bool(is_abs))
+    if (q.ToList(), q.IsAbsolute(), q.ToStr()) != (want.ToList(), want.IsAbsolute(), want.ToStr()):
+        return "AddElem gives %r (absolute=%s), expected %r (absolute=%s)" % (q.ToStr(), q.IsAbsolute(), want.ToStr(), want.IsAbsolute())
+    if (p.ToList(), p.IsAbsolute(), p.ToStr()) != before:
+        return "AddElem changed its receiver"
+    rt = Bip32PathParser.Parse(q.ToStr())
+    if (rt.ToList(), rt.IsAbsolute()) != (q.ToList(), q.IsAbsolute()):
+        return "the extended path does not survive print/parse"
+    return None
+
+
 def direct_spelling(a):
     """all spellings of one path derive the same key"""
     ci, seed, spellings = a
@@ -320,6 +337,7 @@ FUNCS = {
     "abs_on_imported": Func(direct=direct_abs_imported),
     "derive_compose": Func(direct=direct_compose),
     "derive_spelling": Func(direct=direct_spelling),
+    "add_elem": Func(impl=lambda a: Bip32Path(a[0], bool(a[1])).AddElem(a[2]).ToStr(), direct=direct_add_elem),
 }
 
 
@@ -535,6 +553,10 @@ def generate(ctx):
         ctx.run("derive_spelling", [ci, seed, [Bip32Path(path, True).ToStr(), Bip32Path(path, False).ToStr(),
                                                "m/" + "/".join(("%d'" % (i - HARD)) if i >= HARD else str(i) for i in path)]],
                 "depth-%d" % n_el)
+    # ---- AddElem on absolute and relative paths
+    for _ in range(ctx.n(40, 400)):
+        pth = [rng.choice([0, 1, 44, HARD, HARD + 5, 2 * HARD - 1, rng.randrange(2 * HARD)]) for _ in range(rng.randrange(0, 5))]
+        ctx.run("add_elem", [pth, rng.randrange(2), rng.choice([0, 7, HARD, HARD + 1, 2 * HARD - 1])], "add-elem")
     # ---- compositionality, parent unchanged, absolute-on-child, spelling independence: direct checks
     n_tr = ctx.n(60, 1500)
     for t in range(n_tr):
